@@ -34,7 +34,20 @@ let run () =
     | ["dump"; d] -> dump := (d = "1")
     | ["settid"; n] -> st := { !st with ttid = n_of_int (int_of_string n) }   (* test set-up only: used right after "new" *)
     | _ ->
+      (* putself k off:len:mode = put(k, slice of the value stored under k), handed in through the table's own pointers *)
+      let rec drop n l = if n <= 0 then l else match l with [] -> [] | _ :: r -> drop (n - 1) r in
+      let rec take n l = if n <= 0 then [] else match l with [] -> [] | x :: r -> x :: take (n - 1) r in
+      let self_put k spec =
+        let kb = bytes_of_hex k in
+        match List.find_opt (fun (k', _) -> !cmp kb k' = Eq) (fst !sp), String.split_on_char ':' spec with
+        | Some (_, v), [off; len; _] ->
+          let ds = List.length v and off = int_of_string off and len = int_of_string len in
+          let len = if len < 0 then (if ds >= off then ds - off else 0) else len in
+          if off + len > ds || len = 0 then None else Some (Put (kb, take len (drop off v)))
+        | _ -> None in
+      let noself = (match ws with ["putself"; k; spec] -> self_put k spec = None | _ -> false) in
       let o = match ws with
+        | ["putself"; k; spec] -> (match self_put k spec with Some p -> Some p | None -> Some Size)
         | ["put"; k; v] -> Some (Put (bytes_of_hex k, bytes_of_hex v))
         | ["get"; k] -> Some (Get (bytes_of_hex k))
         | ["remove"; k] -> Some (Remove (bytes_of_hex k))
@@ -66,12 +79,12 @@ let run () =
              | ONear (r, l, e) -> "near " ^ opt_str kv_str r ^ " " ^ (if e then "end" else "more") ^ " " ^ String.concat "," (List.map kv_str l) in
            let d = if !dump then Printf.sprintf "num=%d tid=%d chk=%d %s" (int_of_n s'.num) (int_of_n s'.ttid) (int_of_nat (check_model s'.root)) (shape s'.root)
                    else Printf.sprintf "num=%d tid=%d chk=%d n=%d h=%d" (int_of_n s'.num) (int_of_n s'.ttid) (int_of_nat (check_model s'.root)) (tsize s'.root) (theight s'.root) in
-           print_endline ("M " ^ obs ^ extra ^ " | " ^ d)
+           print_endline ("M " ^ (if noself then "noself" else obs) ^ extra ^ " | " ^ d)
          | Crash -> dead := true; print_endline "M CRASH"
          | Fuel -> dead := true; print_endline "M FUEL");
         let (m', sob) = sstep !cmp !sp o in
         sp := m';
-        print_endline ("S " ^ (match sob with
+        print_endline ("S " ^ (if noself then "noself" else match sob with
           | SBool b -> if b then "true" else "false"
           | SVal v -> opt_str hex_of_bytes v
           | SNum n -> string_of_int (int_of_n n)
